@@ -12,7 +12,7 @@ Definition nat_str (n : nat) : string := NilEmpty.string_of_uint (Nat.to_uint n)
 Definition lock_name (l : lockid) : string :=
   match l with
   | 0 => "mu" | 1 => "promise" | 2 => "promise2" | 3 => "client" | 4 => "hook"
-  | 5 => "server" | 6 => "aq" | 7 => "sr" | 8 => "re" | 9 => "embargo" | _ => "lock" ++ nat_str l
+  | 5 => "server" | 6 => "aq" | 7 => "sr" | 8 => "re" | 9 => "hookp" | _ => "lock" ++ nat_str l
   end.
 
 Definition locks_str (h : list lockid) (s : bool) : string :=
@@ -37,6 +37,7 @@ Definition viol_str (v : violation) : string :=
   | VSenderNoMutex => "sender lock state changed without c.mu"
   | VTransportNoSender => "outbound transport operation without the sender lock"
   | VRebindHeld _ => "variable that names a held mutex is re-assigned"
+  | VLockOrder l => "lock order: this mutex must be acquired before " ++ lock_name l ++ ", which is already held"
   | VTasksUnderflow => "tasks.Done / hand-over of a task obligation the function does not own"
   | VPrecondition _ => "contract-only function called in a state its contract does not allow"
   | VIllFormed => "ill-formed program"
